@@ -89,9 +89,12 @@ def _case(draw):
         k = len(sel)
         nbins = draw(nb)
         scale = draw(st.sampled_from(['logicle', 'logicle', ['logicle'] * k]))
-        over = {}
-    return dict(spec=spec, convert=convert, m=draw(st.floats(0.9, 1.2)), b=draw(st.floats(1, 5)),
-                form=form, sel=sel, spell=spell, nbins=nbins, scale=scale, over=over, derived=draw(st.sampled_from([None, None, None, ['slice', 1], ['slice', 2], ['list', 1]])))
+        over = dict(draw(st.sampled_from([{}, {}, {}, {'W': 0}, {'W': 0.0}])))
+    if over and draw(st.booleans()):
+        over['W'] = draw(st.sampled_from([0, 0.0, 0.0, 0.5]))      # an explicit zero is a value, not "not given"
+    seq = draw(st.sampled_from(['list', 'list', 'tuple']))
+    return dict(spec=spec, convert=convert, m=draw(st.floats(0.9, 1.2)), b=draw(st.floats(1, 5)), seq=seq,
+                form=form, sel=sel, spell=spell, nbins=nbins, scale=scale, over=over, derived=draw(st.sampled_from([None, None, None, ['slice', 1], ['slice', 2], ['list', 1], ['perm', 1], ['permname', 2]])))
 
 
 def strategy(tier):
@@ -159,6 +162,11 @@ def check(case, obs):
         ch_arg = sel[0] - D
     else:
         ch_arg = [names[j] if sp else j for j, sp in zip(sel, case['spell'])]
+        if case.get('seq') == 'tuple':              # any sequence of channels is a list of channels
+            ch_arg = tuple(ch_arg)
+        elif case.get('seq') == 'array':
+            ch_arg = np.array([int(j) for j in sel])
+        obs.label('seq:%s' % case.get('seq', 'list'))
     is_list = form in ('all', 'list', 'list1')
     nbins, scale, over = case['nbins'], case['scale'], case['over']
     k = len(sel)
